@@ -4,6 +4,7 @@ mod c04;
 mod c05;
 mod c07;
 mod c10;
+mod c11;
 mod corpus;
 mod c19;
 mod util;
@@ -22,6 +23,15 @@ fn main() {
         "c05" => c05::run(&mut out, tier, seed),
         "c07" => c07::run(&mut out, tier, seed),
         "c10" => c10::run(&mut out, tier, seed),
+        "c11" => {
+            let scratch = args.get(5).cloned().unwrap_or_else(|| "/verif/.build/scratch".to_string());
+            c11::run(&mut out, tier, seed, &scratch)
+        }
+        "c11child" => {
+            drop(out);
+            c11::child(&args[5], outfile);
+            return;
+        }
         "c19" => c19::run(&mut out, tier, seed),
         _ => {
             eprintln!("unknown property {prop}");
